@@ -39,11 +39,14 @@ func toTwosComplement(res, x *big.Int, targetBitSize uint) *big.Int {
 	return res.SetBytes(bytes)
 }
 
-// toTwosComplement converts `res` to the big.Int representation from the two's complement format of a
-// signed integer.
-// `res` is returned and can be positive or negative.
-func fromTwosComplement(res *big.Int) *big.Int {
-	bytes := res.Bytes()
+// fromTwosComplement converts `res` to the big.Int representation from the two's complement format of a
+// signed integer of the given target bit size. `res` must be non-negative and fit in the target bit size.
+// The result is returned and can be positive or negative.
+func fromTwosComplement(res *big.Int, targetBitSize uint) *big.Int {
+	// The sign bit is the most significant bit at the target bit size,
+	// so the bytes must not be stripped of leading zeros.
+	bytes := make([]byte, targetBitSize/8)
+	res.FillBytes(bytes)
 	return values.BigEndianBytesToSignedBigInt(bytes)
 }
 
@@ -668,7 +671,7 @@ func (v Int128Value) BitwiseLeftShift(context ValueStaticTypeContext, other Inte
 		res = toTwosComplement(res, v.BigInt, 128)
 		res = res.Lsh(res, uint(o.BigInt.Uint64()))
 		res = truncate(res, 128/bits.UintSize)
-		return fromTwosComplement(res)
+		return fromTwosComplement(res, 128)
 	}
 
 	return NewInt128ValueFromBigInt(context, valueGetter)
